@@ -42,13 +42,14 @@ def _collect(rd):
         raise InfraError("ABI fact extraction failed: %s" % e)
 
 
-def _judge(facts, rd, only=None, tag="abi"):
+def _judge(facts, rd, only=None, tag="abi", quick=True):
     """write AbiData.tla for `facts`, run TLC on Abi.tla, return (verdicts by (t,name), TlcResult)"""
     d = os.path.join(rd, tag)
     os.makedirs(d, exist_ok=True)
     abifacts.write_tla(facts, os.path.join(d, "AbiData.tla"), only=only)
     shutil.copy(os.path.join(tlc.SPEC, "Abi.tla"), d)
-    cfg = tlc.write_cfg(os.path.join(d, "Abi.cfg"), spec="Spec", invariants=INVARIANTS, constraints=["Emit"], deadlock=False)
+    cfg = os.path.join(d, "Abi.cfg")
+    shutil.copy(os.path.join(tlc.SPEC, "MC_Abi_%s.cfg" % ("quick" if quick else "thorough")), cfg)
     # -coverage is off: the statistics collector makes the recursive layout operators intractable (observed: >2 min vs 3 s)
     r = tlc.run("Abi", cfg, workers=1, cont=True, specdir=d, timeout=600, xmx="2g", coverage=False, deadlock=False)
     verdicts = {}
@@ -383,7 +384,7 @@ def run(ctx):
             ctx.note("C structs with bit-fields are outside the layout rule and skipped: %s" % facts["skipped_bitfield_structs"])
             if any(s.lower() in {p["name"].lower() for p in facts["pystructs"]} for s in facts["skipped_bitfield_structs"]):
                 raise InfraError("a structure mirrored by python has bit-fields: Abi.tla does not model them")
-        verdicts, r = _judge(facts, rd)
+        verdicts, r = _judge(facts, rd, quick=ctx.quick)
         ctx.add_tlc(r, "abi")
         want = _expected_keys(facts)
         if set(verdicts) != want:
